@@ -137,8 +137,8 @@ class Contract:
     def __init__(self, prop, file, qual, params=None, requires=(), ensures=(), raises=None,
                  loops=None, modifies=(), ghosts=None, inline=False, trusted=False,
                  covers=(), native=None, result=None, note='', exact_raises=True,
-                 dropped=(), opaque=False, floor=1, name=None, pure_result=False,
-                 assumes=(), variant='', uses=(), abstract_classes=None, reveal=(), cases=None, yields=None, then_call=None, pure_expr=None, shards=1):
+                 dropped=(), opaque=None, floor=1, name=None, pure_result=False,
+                 assumes=(), variant='', uses=(), abstract_classes=None, reveal=(), cases=None, yields=None, then_call=None, pure_expr=None, shards=1, returns=None):
         self.prop = prop
         self.file = file
         self.qual = qual
@@ -157,13 +157,14 @@ class Contract:
         self.result = result                # Sort of the result (needed when used as a callee contract)
         self.note = note
         self.dropped = list(dropped)        # what extraction drops for this function (decorators, ...)
-        self.opaque = opaque
+        self.opaque = opaque or {}          # methods of opaque objects: name -> ([arg sorts], result sort), uninterpreted
         self.floor = floor                  # minimal number of obligations expected
         self.name = name or qual
         self.pure_result = pure_result
         self.assumes = list(assumes)        # extra assumptions (each listed in the evidence)
         self.uses = list(uses)              # instances of proved lemmas: (lemma name, {var: text})
         self.abstract_classes = abstract_classes or {}
+        self.returns = returns              # name of the parameter object the function returns (aliasing: `return self`)
         self.shards = shards                # discharge the obligations of this function in that many parallel workers
         self.yields = yields                # element sort of the ghost sequence of yielded values (generators)
         self.then_call = then_call          # (list of ghost param names): the returned closure is called on them; ensures see `result2`
